@@ -261,6 +261,11 @@ func (tr *fnTrans) finishBlock() {
 		}
 		guard := and(tr.guard, tr.edgeCond(b, s))
 		tr.checkInvariants(li, guard, tr.cur, ov, "preserved")
+		tr.checkIterEnsures(li, guard, b, ov)
+		if tr.spec.Flags["vacuity"] != "off" {
+			name := fmt.Sprintf("vacuity.loop%d.backedge_reachable#%d", li.ord, tr.ord(fmt.Sprintf("vac.loop%d", li.ord)))
+			tr.obls = append(tr.obls, &Obligation{Name: tr.key + "." + name, Func: tr.key, Kind: "vacuity", Label: name, Guard: guard, Goal: "false", Planted: true, Props: tr.props})
+		}
 	}
 }
 
@@ -667,7 +672,7 @@ func (tr *fnTrans) send(ch Term, cht types.Type, v Term, cond string, p token.Po
 }
 
 // recvValue yields a fresh received value constrained by the channel's invariant.
-func (tr *fnTrans) recvValue(name string, cht types.Type, cond string) Term {
+func (tr *fnTrans) recvValue(name string, cht types.Type, cond string, ch string) Term {
 	et := tr.chanElem(cht)
 	s := tr.c.sortOf(et)
 	v := Term{tr.c.freshConst(name, s), s, et}
@@ -713,6 +718,17 @@ func (tr *fnTrans) recvValue(name string, cht types.Type, cond string) Term {
 		}
 	}
 	tr.guard = saved
+	if ch != "" {
+		ls := "(Array Ref (Array Int " + v.Sort + "))"
+		lc := "G:recvlog_" + v.Sort
+		lg := tr.get(tr.cur, lc, ls)
+		recvd := tr.get(tr.cur, "G:recvd", "(Array Ref Int)")
+		nl := app("store", lg, ch, app("store", app("select", lg, ch), app("select", recvd, ch), v.S))
+		if cond != "true" {
+			nl = app("ite", cond, nl, lg)
+		}
+		tr.set(tr.cur, lc, ls, nl)
+	}
 	return v
 }
 
@@ -724,7 +740,7 @@ func (tr *fnTrans) recv(x *ssa.UnOp) {
 	recvd := tr.get(tr.cur, "G:recvd", "(Array Ref Int)")
 	if x.CommaOk {
 		okc := Term{tr.c.freshConst(x.Name()+"_ok", "Bool"), "Bool", types.Typ[types.Bool]}
-		v := tr.recvValue(x.Name()+"_recv", x.X.Type(), okc.S)
+		v := tr.recvValue(x.Name()+"_recv", x.X.Type(), okc.S, ch.S)
 		closed := tr.get(tr.cur, "G:closed", "(Array Ref Bool)")
 		tr.assume(imp(not(okc.S), app("select", closed, ch.S)))
 		zero := tr.c.zeroOfSort(v.Sort, v.T)
@@ -732,7 +748,7 @@ func (tr *fnTrans) recv(x *ssa.UnOp) {
 		tr.set(tr.cur, "G:recvd", "(Array Ref Int)", app("ite", okc.S, app("store", recvd, ch.S, "(+ "+app("select", recvd, ch.S)+" 1)"), recvd))
 		return
 	}
-	v := tr.recvValue(x.Name()+"_recv", x.X.Type(), "true")
+	v := tr.recvValue(x.Name()+"_recv", x.X.Type(), "true", ch.S)
 	tr.setVal(x, v)
 	tr.set(tr.cur, "G:recvd", "(Array Ref Int)", app("store", recvd, ch.S, "(+ "+app("select", recvd, ch.S)+" 1)"))
 }
@@ -778,12 +794,14 @@ func (tr *fnTrans) selectOp(x *ssa.Select) {
 		cond := app("=", idx.S, fmt.Sprint(i))
 		ch := tr.val(st.Chan)
 		if st.Dir == types.SendOnly {
-			tr.send(ch, st.Chan.Type(), tr.val(st.Send), cond, st.Pos, false)
 			// a nil channel's case is never chosen
 			tr.assume(imp(cond, not(app("=", ch.S, "nilref"))))
+			tr.send(ch, st.Chan.Type(), tr.val(st.Send), cond, st.Pos, false)
 		} else {
-			v := tr.recvValue(fmt.Sprintf("%s_recv%d", x.Name(), i), st.Chan.Type(), cond)
+			v := tr.recvValue(fmt.Sprintf("%s_recv%d", x.Name(), i), st.Chan.Type(), cond, ch.S)
 			tr.assume(imp(cond, not(app("=", ch.S, "nilref"))))
+			recvd := tr.get(tr.cur, "G:recvd", "(Array Ref Int)")
+			tr.set(tr.cur, "G:recvd", "(Array Ref Int)", app("ite", cond, app("store", recvd, ch.S, "(+ "+app("select", recvd, ch.S)+" 1)"), recvd))
 			closed := tr.get(tr.cur, "G:closed", "(Array Ref Bool)")
 			tr.assume(imp(and(cond, not(okc.S)), app("select", closed, ch.S)))
 			res = append(res, v)
